@@ -342,9 +342,11 @@ class DetachedServer(ServerBase):
             # cancelled; anything else is acknowledged and left alone.
             _logger.info(f'Cancelling: {request}.')
 
-            # Remove task from server data
-            mailbox_id = self.tasks[request][0]
+            # Remove task from server data; late results, logs and errors
+            # of a cancelled task are discarded from here on
+            mailbox_id = self.tasks.pop(request)[0]
             self.mailboxes.pop(mailbox_id)
+            self.mailbox_to_task_dict.pop(mailbox_id)
             self.clients[conn].remove(request)
 
             # Forward internal cancel messages
